@@ -1303,7 +1303,16 @@ func ruleKeyPassThrough(w *World, r *Run, a *updAnalysis, rule string) {
 			case ev.Kind == "call" && ev.Callee == cWriteOps:
 				r.Check(len(ev.Args) == 1 && ev.Args[0] == a.pLogID, rule, a.key(v, "WriteOps key"), w.pos(ev.Pos), "WriteOps is keyed by "+short(fmt.Sprint(ev.Args))+", not by the request's log ID")
 			case ev.Kind == "call" && ev.Callee == cInc:
-				ok := len(ev.Args) == 1 && ev.Args[0].Kind == "varargs" && len(ev.Args[0].Args) == 1 && ev.Args[0].Args[0] == a.pLogID
+				// whatever identifies a log among the labels is the request's log ID (a counter without labels, or with
+				// constant labels besides it, files nothing under another log)
+				ok := len(ev.Args) == 1 && ev.Args[0] != nil && (ev.Args[0].Kind == "nil" || ev.Args[0].Kind == "varargs")
+				if ok && ev.Args[0].Kind == "varargs" {
+					for _, la := range ev.Args[0].Args {
+						if la != a.pLogID && (la == nil || la.Kind != "const") {
+							ok = false
+						}
+					}
+				}
 				r.Check(ok, rule, a.key(v, "counter label"), w.pos(ev.Pos), "counter label is "+short(fmt.Sprint(ev.Args))+", not the request's log ID")
 			}
 		}
@@ -1495,6 +1504,18 @@ func counterBindings(w *World, r *Run, pkgPath, rule string) (map[string]string,
 	return out, onces
 }
 
+// counterBindingsQuiet: the witness package's counter bindings, without reporting (for rules that only filter by name).
+var counterQuietCache = map[*World]map[string]string{}
+
+func counterBindingsQuiet(w *World) map[string]string {
+	if c, ok := counterQuietCache[w]; ok {
+		return c
+	}
+	out, _ := counterBindings(w, newRun("x", "quick", 0), pWitness, "x")
+	counterQuietCache[w] = out
+	return out
+}
+
 // counterName: the metric name a counter location was created with: by location, or — for a field of a structure of counters
 // reached through a pointer other than the package's own (w.metrics.attempt) — by structure type and field.
 func counterName(names map[string]string, recv *Term) (string, bool) {
@@ -1611,8 +1632,14 @@ func ruleCounterLabel(w *World, r *Run, a *updAnalysis, rule string) {
 	if !a.guard(r, rule) {
 		return
 	}
+	names := counterBindingsQuiet(w)
 	for _, v := range a.paths {
 		for _, ie := range v.incs {
+			// the property speaks about the four update counters; a counter created under another metric name carries the
+			// labels its own definition gives it
+			if m, known := counterName(names, ie.Recv); known && !c20Metrics[m] {
+				continue
+			}
 			ok := len(ie.Args) == 1 && ie.Args[0].Kind == "varargs" && len(ie.Args[0].Args) == 1 && ie.Args[0].Args[0] == a.pLogID
 			r.Check(ok, rule, a.key(v, "Inc label"), w.pos(ie.Pos), "counter label is "+short(fmt.Sprint(ie.Args))+", want exactly the request's log ID")
 		}
@@ -1631,6 +1658,12 @@ func observationOnly(a *updAnalysis, ev Event) bool {
 	case "call":
 		if observationPkgs[calleePkg(ev.Callee)] {
 			return true
+		}
+		// a counter other than the four the property speaks about (one that counts refusals of unknown logs, say) observes
+		if ev.Callee == cInc && curWorld != nil {
+			if m, known := counterName(counterBindingsQuiet(curWorld), ev.Recv); known && !c20Metrics[m] {
+				return true
+			}
 		}
 		if ev.Callee == "dyn" && ev.Recv != nil && mentions(ev.Recv, a.pRecv) {
 			for _, x := range ev.Args {
